@@ -50,8 +50,21 @@ inproc, parse, cli = data["Inproc"] or [], data["Parse"] or [], data["Cli"] or [
 ck.log("harness done: %d triples, %d texts, %d CLI cases" % (len(inproc), len(parse), len(cli)))
 
 # ------------------------------------------------------------------ Gallina literals
+class Intern:
+    """every distinct string of a cases file is defined once (Definition str_k := "...") and referred to by name:
+    elaborating string literals dominates the cost of a cases file otherwise"""
+    def __init__(self):
+        self.tab = {}
+    def s(self, x):
+        x = "".join(ch if 32 <= ord(ch) < 127 else "?" for ch in x)
+        if x not in self.tab:
+            self.tab[x] = "str_%d" % len(self.tab)
+        return self.tab[x]
+    def defs(self):
+        return "".join("Definition %s : string := %s.\n" % (n, coq_str(x)) for x, n in self.tab.items())
+IN = Intern()
 def s_(x):
-    return coq_str("".join(ch if 32 <= ord(ch) < 127 else "?" for ch in x))
+    return IN.s(x)
 def pos_(p):
     return "(mkPos %s %d %d)" % (s_(p["File"]), p["Line"], p["Col"])
 SEV = ["SevError", "SevWarning", "SevIgnored"]
@@ -64,7 +77,7 @@ def msg_(m):
         return MSGS[m]
     if m not in msg_tok:
         msg_tok[m] = "m%d" % len(msg_tok)
-    return coq_str(msg_tok[m])
+    return s_(msg_tok[m])
 msg_tok = {}
 def diag_(d):
     return "(mkDiag %s %s %s %s %d)" % (pos_(d["Pos"]), s_(d["Cat"]), msg_(d["Msg"]), SEV[d["Sev"]], d["Rest"])
@@ -90,27 +103,44 @@ files = {}
 SH = 500
 ishards = [inproc[i:i + SH] for i in range(0, len(inproc), SH)]
 for k, sh_ in enumerate(ishards):
-    files["inproc%d" % k] = HEAD + """Definition cases : list icase := %s.
+    IN = Intern()
+    body = coq_list([icase_(c) for c in sh_])
+    files["inproc%d" % k] = HEAD + IN.defs() + """Definition cases : list icase := %s.
 Definition M := Eval vm_compute in numbered_b i_mismatch cases.
 Definition V := Eval vm_compute in numbered_l i_violation cases.
 Definition K := Eval vm_compute in count_b in_class_i cases.
 Print M. Print V. Print K.
-""" % coq_list([icase_(c) for c in sh_])
-files["parse"] = HEAD + """Definition cases : list (string * string * list string) := %s.
+""" % body
+IN = Intern()
+body = coq_list(["(%s, %s, %s)" % (s_(p["Text"]), s_(p["Cmd"]), coq_list([s_(a) for a in p["Args"] or []])) for p in parse])
+files["parse"] = HEAD + IN.defs() + """Definition cases : list (string * string * list string) := %s.
 Definition M := Eval vm_compute in numbered_b p_mismatch cases.
 Print M.
-""" % coq_list(["(%s, %s, %s)" % (s_(p["Text"]), s_(p["Cmd"]), coq_list([s_(a) for a in p["Args"] or []])) for p in parse])
+""" % body
 CSH = 60
 cshards = [cli[i:i + CSH] for i in range(0, len(cli), CSH)]
-adefs = "".join("Definition allowed_%s : allowed_t := %s.\n" % (n, allowed_(a)) for n, a in sorted((data["Configs"] or {}).items()))
 for k, sh_ in enumerate(cshards):
-    files["cli%d" % k] = HEAD + adefs + """Definition cases : list ccase := %s.
+    IN = Intern()
+    adefs = "".join("Definition allowed_%s : allowed_t := %s.\n" % (n, allowed_(a)) for n, a in sorted((data["Configs"] or {}).items()))
+    body = coq_list([ccase_(c) for c in sh_])
+    files["cli%d" % k] = HEAD + IN.defs() + adefs + """Definition cases : list ccase := %s.
 Definition M := Eval vm_compute in numbered_b c_mismatch cases.
 Definition V := Eval vm_compute in numbered_l c_violation cases.
 Definition K := Eval vm_compute in count_b in_class_c cases.
 Print M. Print V. Print K.
-""" % coq_list([ccase_(c) for c in sh_])
-results = ck.coq_cases_parallel(files)
+""" % body
+def run_cases(files):
+    """as Check.coq_cases_parallel, with -noglob (the .glob of a cases file is ten times the size of the file)"""
+    from concurrent.futures import ThreadPoolExecutor
+    def one(name, text):
+        path = os.path.join(ck.casedir, name + ".v")
+        with open(path, "w") as f:
+            f.write(text)
+        return sh(["coqc", "-noglob", "-R", COQ, "Verif", path], cwd=ck.casedir, timeout=1500)
+    with ThreadPoolExecutor(max_workers=16) as ex:
+        futs = {n: ex.submit(one, n, t) for n, t in files.items()}
+        return {n: f.result() for n, f in futs.items()}
+results = run_cases(files)
 ck.log("cases evaluated")
 
 # ------------------------------------------------------------------ reading the answers
